@@ -78,10 +78,11 @@ def gen_image(rng, big=None, plain=False, big_variant=0):
     names = {s.name for s in secs}
     for _ in range(rng.choice([0, 0, 1, 2, 5, 20])):
         t = rng.choice([0, 1, 1, 5, 6, 7, 0x6474e550, 0x6474e551, 0x6474e552, 0x6474e553, 0x70000000, 0x70000001, 0x70000002,
-                        0x70000003, 0x60000000, 0x6fffffff, 0x7fffffff, 0x12345678, 8, 0x65a3dbe6])
-        segs.append(elfgen.Seg(type=t, flags=rng.getrandbits(32), offset=rng.getrandbits(20), vaddr=rng.getrandbits(cls - 1),
-                               paddr=rng.getrandbits(cls - 1), filesz=rng.getrandbits(16), memsz=rng.getrandbits(24),
-                               align=rng.choice([0, 1, 0x1000, rng.getrandbits(cls - 1)])))
+                        0x70000003, 0x60000000, 0x6fffffff, 0x7fffffff, 0x12345678, 8, 0x65a3dbe6,
+                        0x80000000, 0xdeadbeef, 0xffffffff])         # every header field is unsigned: top bits included
+        segs.append(elfgen.Seg(type=t, flags=rng.getrandbits(32), offset=rng.getrandbits(20), vaddr=rng.getrandbits(cls),
+                               paddr=rng.getrandbits(cls), filesz=rng.getrandbits(16), memsz=rng.getrandbits(24),
+                               align=rng.choice([0, 1, 0x1000, rng.getrandbits(cls)])))
     if '.note.x' in names and rng.random() < 0.5:
         segs.append(elfgen.Seg(type=4, flags=4, sec='.note.x', align=4))
     if '.dynamic' in names and rng.random() < 0.5:
